@@ -35,7 +35,7 @@ func prepare(repo, verif, dir string, verbose bool) (string, simgo.Stats, error)
 	logf("simgo: instrumented in %v: %+v", time.Since(t0), st)
 	t0 = time.Now()
 	worker := filepath.Join(dir, "worker.bin")
-	cmd := exec.Command(goBin, "build", "-o", worker, "./zz_sim/cmd/worker")
+	cmd := exec.Command(goBin, "build", "-trimpath", "-o", worker, "./zz_sim/cmd/worker") // -trimpath: the build cache is shared between scratch directories
 	cmd.Dir = dir
 	cmd.Env = env
 	out, err := cmd.CombinedOutput()
